@@ -458,10 +458,55 @@ var fixedPrograms = []string{
 	`!(n1 == n2)`, `!(n1 != n2)`, `!(n1 < n2)`, `!((0/0) < 1)`, `!((1/0) == (1/0))`,
 }
 
+// effectPrograms: every operator and every operand position with OBSERVABLE operands (tracing
+// host calls, failing operations) next to literals and next to each other — the programs on which
+// an "algebraic simplification", a peephole, a reordering of operands, fields or arguments, or a
+// dropped operand shows in the trace of host calls or in which failure is reported, although the
+// VALUE of the expression stays right.  Engine: hostZoo (tr, trs, trb trace; boom fails).
+func effectPrograms() []string {
+	var ps []string
+	add := func(xs ...string) { ps = append(ps, xs...) }
+	// short-circuit operators and conditionals: observable operand against each literal, both sides
+	for _, op := range []string{"&&", "||"} {
+		for _, lit := range []string{"true", "false"} {
+			add("trb(b1) "+op+" "+lit, lit+" "+op+" trb(b1)", "(tr(1) > 0) "+op+" "+lit, lit+" "+op+" (boom(1) > 0)",
+				"(boom(1) > 0) "+op+" "+lit, "([1][tr(5)] > 0) "+op+" "+lit, "(trb(true) "+op+" "+lit+") "+op+" trb(false)",
+				"!(trb(b1) "+op+" "+lit+")", "lz(tr(1), tr(2)) > 0 "+op+" "+lit)
+		}
+		add("trb(true) "+op+" trb(false)", "trb(false) "+op+" trb(true)", "trb(b1) "+op+" trb(b1) "+op+" trb(!b1)")
+	}
+	for _, c := range []string{"true", "false", "trb(true)", "trb(false)", "b1"} {
+		add("if("+c+", tr(1), tr(2))", c+" ? tr(1) : tr(2)", "if("+c+", tr(1), boom(2))", c+" ? boom(1) : tr(2)",
+			"if("+c+", 1, 2) + tr(3)", "if("+c+", if("+c+", tr(1), tr(2)), tr(3))")
+	}
+	add("!trb(true)", "!!trb(false)", "!(tr(1) < tr(2))", "!(tr(1) == tr(2))", "0 - tr(1)", "-tr(1)", "+tr(1)")
+	// strict binary operators: left then right, each once — also with a literal or a failing side
+	for _, op := range []string{"+", "-", "*", "/", "%", "^", "==", "!=", "<", "<=", ">", ">="} {
+		add("tr(1) "+op+" tr(2)", "tr(2) "+op+" 1", "1 "+op+" tr(2)", "tr(1) "+op+" boom(2)", "boom(1) "+op+" tr(2)",
+			"[1,2][tr(7)] "+op+" tr(8)", "tr(1) "+op+" tr(2) "+op+" tr(3)", "tr(0) "+op+" 0", "0 "+op+" tr(0)", "tr(1) "+op+" 1")
+	}
+	for _, op := range []string{"+", "==", "!=", "<", ">"} {
+		add("trs(\"a\") " + op + " trs(\"b\")")
+	}
+	add("t1 > t2 == (tr(1) > tr(2))", "(t1 - t2) + tr(1)", "min(tr(1), tr(2))", "max(tr(2), tr(1))", "tr2(tr(1), tr(2))",
+		"tr2(boom(1), tr(2))", "tr2(tr(1), boom(2))", "idp(tr(1)) + idp(tr(2))")
+	// literals: elements, entries and fields in SOURCE order (fields deliberately not alphabetical)
+	add("[tr(1), tr(2), tr(3)]", "[tr(3), boom(2), tr(1)]", "[tr(2): tr(1), tr(4): tr(3)]", "[trs(\"b\"): tr(1), trs(\"a\"): tr(2)]",
+		"{b: tr(1), a: tr(2)}", "{z: tr(1), m: tr(2), a: tr(3)}.m", "{z: [0][tr(5)], a: tr(6)}.a", "{b: boom(1), a: tr(2)}",
+		"{b: {d: tr(1), c: tr(2)}, a: tr(3)}", "[{b: tr(1), a: tr(2)}, {a: tr(3), b: tr(4)}]", "[[tr(1)], [tr(2), tr(3)]]",
+		"[tr(1), tr(2)][tr(0)]", "[tr(1): tr(2)][tr(1)]", "[tr(1)][tr(9)]", "[tr(1): 2][tr(3)]", "{a: tr(1)}.a + tr(2)")
+	// calls: arguments left to right, once; lazy host functions force what they force
+	add("lz(tr(1), tr(2))", "lz2(tr(1), tr(2))", "lzb(trb(true), tr(1), tr(2))", "lzb(trb(false), tr(1), tr(2))", "pick2(tr(1), tr(2))",
+		"lz(lz(tr(1), tr(2)), tr(3))", "lz2(tr(1), lz2(tr(2), tr(3)))", "lz(boom(1), tr(2))", "lz(tr(1), boom(2))", "cnst() + tr(1)",
+		"get([tr(1)], tr(0), tr(9))", "get([tr(1): tr(2)], tr(1), tr(9))", "isset([tr(1): 2], tr(1))", "union([tr(1)], [tr(2)])",
+		"len([tr(1), tr(2)])", "string(tr(1)) + string(tr(2))", "tr(1).tr2(tr(2))", "tr(tr(tr(1)))", "tr(1) + tr(1) + tr(1)")
+	return ps
+}
+
 func init() {
 	register(&Stream{
 		Name: "eval",
-		Rule: "type-directed random source programs (depth<=4) over an 18-variable environment family (numbers incl. NaN/±Inf/2^53/2^63 edges, non-ASCII strings, times in three zones, lists, maps, objects with permuted field order, optionals present/absent), a random subset of 12 host functions (strict, lazy, polymorphic, failing, overloading built-ins) registered in random order, boundary index/modulus pools, plus type-breaking mutants and a fixed corpus; every accepted program is run on closure, interp, vm and vm-callthread. Non-trivial = parses; distinct = distinct request.",
+		Rule: "type-directed random source programs (depth<=4) over an 18-variable environment family (numbers incl. NaN/±Inf/2^53/2^63 edges, non-ASCII strings, times in three zones, lists, maps, objects with permuted field order, optionals present/absent), a random subset of 12 host functions (strict, lazy, polymorphic, failing, overloading built-ins) registered in random order, boundary index/modulus pools, plus type-breaking mutants, a fixed corpus and the effects family (every operator, operand position, literal / argument / field position with observable operands — tracing and failing host calls — next to literals and to each other); every accepted program is run on closure, interp, vm and vm-callthread. Non-trivial = parses; distinct = distinct request.",
 		Gen: func(r *rand.Rand, n int, thorough bool) []Case {
 			var cs []Case
 			stats := map[string]int{}
@@ -472,6 +517,9 @@ func init() {
 				cs = append(cs, evalCases(eng, envFamily, vals, p, "prog:fixed")...)
 			}
 			cs = append(cs, specialCases()...)
+			for _, p := range effectPrograms() {
+				cs = append(cs, evalCases(eng, envFamily, vals, p, "prog:effects")...)
+			}
 			for i := 0; i < n; i++ {
 				if i%20 == 0 {
 					eng = newEngine(pickHosts(r))
